@@ -28,3 +28,4 @@ open SamVerif.C01
 #print axioms get_spec
 #print axioms set_spec
 #print axioms pop_spec
+#print axioms assemble_printBytes
